@@ -75,7 +75,7 @@ def slices(tier, rng):
     def g(name, k, ps, nfmax, kinds, orders):
         return Slice(name, 't_order_graph', 3 + 7 * k, lambda a: graph_assume(a, k, ps, nfmax, kinds, orders),
                      opts={'map_order': order_hook, 'must_reach': ['ok/ok']}, ctx={'t': 'graph'})
-    out.append(g('graph-k2-ps4', 2, 4, 1, [0, 1, 2, 3, 4, 5], [0, 1]) if tier == 'quick' else g('graph-k2-ps4', 2, 4, 2, [0, 1, 2, 5], [0, 1]))
+    out.append(g('graph-k2-ps4', 2, 4, 1, [0, 1, 2, 4, 5], [0]) if tier == 'quick' else g('graph-k2-ps4', 2, 4, 2, [0, 1, 2, 5], [0, 1]))
     if tier != 'quick':
         out.append(g('graph-k3-ps4', 3, 4, 1, [0, 1, 2, 3, 4, 5], [0, 1]))
         out.append(g('graph-k2-ps8', 2, 8, 2, [6, 1, 2, 5], [0]))
